@@ -7,7 +7,10 @@
 #![allow(clippy::all)]
 
 extern crate rustc_abi;
+extern crate rustc_ast;
+extern crate rustc_ast_pretty;
 extern crate rustc_driver;
+extern crate rustc_feature;
 extern crate rustc_hir;
 extern crate rustc_interface;
 extern crate rustc_middle;
@@ -29,9 +32,68 @@ use rustc_middle::ty::{self, Ty, TyCtxt};
 use rustc_span::Span;
 use std::collections::BTreeMap;
 
-struct Cb;
+#[derive(Default)]
+struct Cb {
+    /// helper / tool attributes (`#[serde(..)]` ...) of items, variants and fields, keyed by the span of the name they sit on;
+    /// read from the expanded AST because HIR lowering drops attributes rustc does not know
+    attrs: BTreeMap<(u32, u32), Vec<String>>,
+}
+
+struct AttrCollector<'a> {
+    out: &'a mut BTreeMap<(u32, u32), Vec<String>>,
+}
+
+impl<'a> AttrCollector<'a> {
+    fn note(&mut self, sp: Span, attrs: &[rustc_ast::Attribute]) {
+        let v: Vec<String> = attrs
+            .iter()
+            .filter(|a| !a.is_doc_comment())
+            .filter(|a| match a.name() {
+                // attributes rustc itself interprets say nothing about generated code
+                Some(n) => !rustc_feature::is_builtin_attr_name(n),
+                None => true,
+            })
+            .map(|a| rustc_ast_pretty::pprust::attribute_to_string(a))
+            .collect();
+        if !v.is_empty() {
+            let d = sp.data();
+            self.out.entry((d.lo.0, d.hi.0)).or_default().extend(v);
+        }
+    }
+}
+
+impl<'a, 'ast> rustc_ast::visit::Visitor<'ast> for AttrCollector<'a> {
+    fn visit_item(&mut self, i: &'ast rustc_ast::Item) {
+        if let Some(id) = i.kind.ident() {
+            self.note(id.span, &i.attrs);
+        }
+        rustc_ast::visit::walk_item(self, i);
+    }
+    fn visit_variant(&mut self, v: &'ast rustc_ast::Variant) {
+        self.note(v.ident.span, &v.attrs);
+        rustc_ast::visit::walk_variant(self, v);
+    }
+    fn visit_field_def(&mut self, f: &'ast rustc_ast::FieldDef) {
+        self.note(f.ident.map(|i| i.span).unwrap_or(f.span), &f.attrs);
+        rustc_ast::visit::walk_field_def(self, f);
+    }
+}
 
 impl rustc_driver::Callbacks for Cb {
+    fn after_expansion<'tcx>(
+        &mut self,
+        _compiler: &rustc_interface::interface::Compiler,
+        tcx: TyCtxt<'tcx>,
+    ) -> Compilation {
+        if std::env::var("CWFACTS_OUT").is_ok() {
+            let r = tcx.resolver_for_lowering().borrow();
+            let krate = &r.1;
+            let mut c = AttrCollector { out: &mut self.attrs };
+            rustc_ast::visit::walk_crate(&mut c, krate);
+        }
+        Compilation::Continue
+    }
+
     fn after_analysis<'tcx>(
         &mut self,
         _compiler: &rustc_interface::interface::Compiler,
@@ -46,7 +108,7 @@ impl rustc_driver::Callbacks for Cb {
         if !only.is_empty() && !only.split(',').any(|c| c == cname) {
             return Compilation::Continue;
         }
-        let mut ex = Exporter { tcx, cname: cname.clone(), adts: BTreeMap::new(), pending_adts: Vec::new() };
+        let mut ex = Exporter { tcx, cname: cname.clone(), adts: BTreeMap::new(), pending_adts: Vec::new(), attrs: std::mem::take(&mut self.attrs) };
         let j = ex.export();
         let path = format!("{}/{}.json", out, cname);
         let tmp = format!("{}.tmp{}", path, std::process::id());
@@ -61,6 +123,7 @@ struct Exporter<'tcx> {
     cname: String,
     adts: BTreeMap<String, J>,
     pending_adts: Vec<DefId>,
+    attrs: BTreeMap<(u32, u32), Vec<String>>,
 }
 
 fn s(x: impl Into<String>) -> J {
@@ -171,6 +234,22 @@ impl<'tcx> Exporter<'tcx> {
         self.pending_adts.push(did);
     }
 
+    /// the helper / tool attributes (`#[serde(..)]` ...) on a local item, field or variant: they steer the derive-generated
+    /// codec bodies, which are not exported
+    fn tool_attrs(&self, did: DefId, local: bool) -> J {
+        let mut out = Vec::new();
+        if local {
+            let sp = self.tcx.def_ident_span(did).unwrap_or_else(|| self.tcx.def_span(did));
+            let d = sp.data();
+            if let Some(v) = self.attrs.get(&(d.lo.0, d.hi.0)) {
+                for a in v {
+                    out.push(s(a.clone()));
+                }
+            }
+        }
+        J::Arr(out)
+    }
+
     fn flush_adts(&mut self) {
         while let Some(did) = self.pending_adts.pop() {
             let tcx = self.tcx;
@@ -193,7 +272,12 @@ impl<'tcx> Exporter<'tcx> {
                     if local {
                         self.note_ty(fty);
                     }
-                    fields.push(J::obj(vec![("name", s(f.name.to_string())), ("ty", s(self.ty_str(fty)))]));
+                    fields.push(J::obj(vec![
+                        ("name", s(f.name.to_string())),
+                        ("ty", s(self.ty_str(fty))),
+                        ("attrs", self.tool_attrs(f.did, local)),
+                        ("line", if local { J::Num(self.loc(tcx.def_span(f.did)).1 as i128) } else { J::Null }),
+                    ]));
                 }
                 let discr = if def.is_enum() {
                     let d = def.discriminant_for_variant(tcx, vi);
@@ -203,13 +287,22 @@ impl<'tcx> Exporter<'tcx> {
                 };
                 vars.push(J::obj(vec![
                     ("name", s(v.name.to_string())),
+                    ("attrs", if def.is_enum() { self.tool_attrs(v.def_id, local) } else { J::Arr(Vec::new()) }),
                     ("discr", discr),
                     ("fields", J::Arr(fields)),
                 ]));
             }
             self.adts.insert(
                 p,
-                J::obj(vec![("kind", s(kind)), ("local", J::Bool(local)), ("pretty", s(pretty)), ("variants", J::Arr(vars))]),
+                J::obj(vec![
+                    ("kind", s(kind)),
+                    ("local", J::Bool(local)),
+                    ("pretty", s(pretty)),
+                    ("attrs", self.tool_attrs(did, local)),
+                    ("file", if local { s(self.loc(tcx.def_span(did)).0) } else { J::Null }),
+                    ("line", if local { J::Num(self.loc(tcx.def_span(did)).1 as i128) } else { J::Null }),
+                    ("variants", J::Arr(vars)),
+                ]),
             );
         }
     }
@@ -746,6 +839,6 @@ fn main() {
     let mut rargs: Vec<String> = vec!["rustc".to_string()];
     let skip = if args.len() > 1 && (args[1].ends_with("rustc") || args[1].contains("/rustc")) { 2 } else { 1 };
     rargs.extend(args.iter().skip(skip).cloned());
-    let mut cb = Cb;
+    let mut cb = Cb::default();
     rustc_driver::run_compiler(&rargs, &mut cb);
 }
